@@ -133,7 +133,7 @@ def sid_of(task):
     return task.args[0]
 
 
-def delayed_send_shim(scheduler, source, task, delay):
+def delayed_send_shim(scheduler, source, task, delay, *more, **kw):
     i = St.src_index.get(id(source), -1)
     sid = sid_of(task)
     n = St.attempts.get((i, sid), 0)
@@ -142,14 +142,14 @@ def delayed_send_shim(scheduler, source, task, delay):
 
     async def inner():
         CUR.set((i, sid, n))
-        await REAL_DELAYED_SEND(scheduler, source, task, delay)
+        await REAL_DELAYED_SEND(scheduler, source, task, delay, *more, **kw)
 
     return inner()
 
 
-def get_task_delay_shim(task):
+def get_task_delay_shim(task, *a, **k):
     try:
-        r = REAL_GET_TASK_DELAY(task)
+        r = REAL_GET_TASK_DELAY(task, *a, **k)
     except ValueError:
         St.log.append(("delay", now_us(), sid_of(task), "ValueError"))
         raise
@@ -576,7 +576,13 @@ def assemble(case, log, dead):
                 anomalies.append("get_task_delay called twice for schedule %r in one poll" % ev[2])
             cur["delays"][ev[2]] = (ev[1], ev[3])
         elif kind == "spawn":
-            cur["spawns"].append([ev[2], ev[3], ev[4], ev[5], ev[1]])
+            if polls and ev[1] == polls[-1]["b"] and not (cur["calls"] or cur["listed"] or cur["delays"] or cur["spawns"]):
+                # the send was handed to the loop through a wrapper coroutine: delayed_send() itself is called at the spawned
+                # task's first step - after the loop's own sleep began, at the very same instant.  It belongs to the poll that
+                # created it (a spawn at a LATER instant stays where it is and is flagged as before).
+                polls[-1]["spawns"].append([ev[2], ev[3], ev[4], ev[5]])
+            else:
+                cur["spawns"].append([ev[2], ev[3], ev[4], ev[5], ev[1]])
         elif kind == "kick":
             kicks.append(ev)
         elif kind == "post":
